@@ -284,4 +284,3 @@ func sign(i int) int {
 func show(v interface{}) string {
 	return string(stats.ExtJSON(bson.D{{Key: "v", Value: v}}))
 }
-
